@@ -24,6 +24,7 @@ TraceInit ==
   /\ natOf = T.natOf /\ kind = T.kind /\ sock = T.sock /\ extip = T.extip
   /\ priv = SetOf(T.priv) /\ walkers = SetOf(T.walkers) /\ contacts = T.contacts
   /\ InitOverlay
+  /\ gt = T.gt0                  \* the Lamport clock every host had when the recording started
 
 HostMatches(h, s) ==
   /\ wan'[h] = s.wan
@@ -35,6 +36,7 @@ HostMatches(h, s) ==
 NatsMatch(ns) ==
   /\ mapping' = [n \in Nats |-> SetOf(ns[n].mapping)]
   /\ allowed' = [n \in Nats |-> SetOf(ns[n].allowed)]
+  /\ nports'  = [n \in Nats |-> ns[n].nports]
 
 MsgOf(q) == Msg(q.dst, q.kind, q.ns, q.dest, q.slan, q.swan, q.ilan, q.iwan, q.ins, q.ident)
 
@@ -56,12 +58,15 @@ Observed(e) ==
         /\ contacted' = IF e.act = "Contact" THEN [contacted EXCEPT ![h] = @ + 1] ELSE contacted
         /\ walked' = IF e.act = "IntroWalk" THEN [walked EXCEPT ![h] = @ \cup {e.a}] ELSE walked
         /\ intros' = IF h = "I"
-                     THEN intros \cup {[req |-> p.from, cand |-> c.k, reqaddr |-> q.dst, candaddr |-> c.addr] :
+                     THEN intros \cup {[req |-> p.from, cand |-> c.k, reqaddr |-> q.dst, candaddr |-> c.addr,
+                                        ok |-> c.k \notin stale, cur |-> Pub(c.k)] :
                                          <<p, q, c>> \in {x \in consumed \X em \X SetOf(e.host.peers) :
                                                 x[2].kind = "iresp" /\ x[2].iwan # Zero
                                                 /\ (x[3].addr = x[2].iwan \/ x[3].addr = x[2].ilan)}}
                      ELSE intros
         /\ puncAsked' = puncAsked \cup {[to |-> q.dst, wanw |-> q.swan] : q \in {x \in em : x.kind = "preq"}}
+        /\ stale' = IF h = "I" THEN stale \ {p.from : p \in {x \in consumed : x.kind = "ireq"}} ELSE stale
+        /\ UNCHANGED nrebind
   /\ UNCHANGED topo
 
 TraceNext ==
@@ -74,6 +79,7 @@ TraceNext ==
              /\ \/ DeliverIReq(e.id) \/ DeliverIResp(e.id) \/ DeliverPReq(e.id) \/ DeliverPunc(e.id)
           \/ ~Strict /\ Observed(e)
           \/ e.act = "Lose"      /\ Lose(e.id, e.why)
+          \/ e.act = "Rebind"    /\ Rebind(e.h)
           \/ /\ e.act = "Final"  /\ UNCHANGED vars
              /\ \A h \in Hosts : HostMatches(h, e.world[h])
              /\ net = SetOf(e.net)
@@ -92,7 +98,10 @@ TraceAccepted == l <= Len(Ev) => ENABLED TraceNext
 (* the C13 verdict on the behaviour as observed: the driver ends a schedule only when nothing is in flight and  *)
 (* every follower has walked to everything get_walkable_addresses() offered                                    *)
 AtEnd == l > Len(Ev)
-ReachAtEnd   == AtEnd => (net = {} /\ \A i \in intros : i.req \in Walkers => Mutual(i.req, i.cand))
+ReachAtEnd   == AtEnd => (net = {} /\ \A i \in intros : (i.req \in Walkers /\ i.ok) => Mutual(i.req, i.cand))
+HoldsWorkingAtEnd == AtEnd => \A i \in intros :
+                  (i.req \in Walkers /\ i.ok /\ i.cur = Pub(i.cand) /\ ~SameNat(i.req, i.cand)
+                   /\ IsPeer(i.req, i.cand)) => PeerOf(i.req, i.cand).addr = Pub(i.cand)
 LanMeetAtEnd == AtEnd => \A i \in intros :
                   (i.req \in Walkers /\ SameNat(i.req, i.cand) /\ Mutual(i.req, i.cand)) =>
                       /\ PeerOf(i.req, i.cand).addr = sock[i.cand]
